@@ -115,7 +115,13 @@ pub fn check_bookkeeping(w: &WorldInner, a: &Analysis, run: &RunResult, tcfg: &T
         for acc in &v.accepted {
             m.accept(acc);
         }
-        let highest_sent = v.ttls.iter().flatten().copied().max().unwrap_or(tcfg.first_ttl.saturating_sub(1));
+        // the highest ttl attempted in the round: a probe whose send failed still occupies its
+        // hop (its ttl is only known from the published slot when nothing reached the wire)
+        let attempted = round.probes.iter().filter_map(|p| match p {
+            ProbeStatus::Failed(f) => Some(f.ttl.0),
+            _ => None,
+        });
+        let highest_sent = v.ttls.iter().flatten().copied().chain(attempted).max().unwrap_or(tcfg.first_ttl.saturating_sub(1));
         o.hit("reason_iff_genuine_target_response");
         let want_reason = if m.target_found { CompletionReason::TargetFound } else { CompletionReason::RoundTimeLimitExceeded };
         if round.reason != want_reason {
